@@ -18,6 +18,7 @@ import (
 
 	"verifharness/internal/gen"
 	"verifharness/internal/oracle"
+	"verifharness/internal/rdr"
 	"verifharness/internal/vh"
 )
 
@@ -158,6 +159,9 @@ func unitOf(n v3) (v3, bool) {
 
 type MeshCase struct {
 	M gen.MeshDesc
+	// Reader selects how bytes are handed to the decoder (internal/rdr): 0 bytes.Reader, 1 one byte
+	// per Read, 2 half of the request, 3 chunks of 7 bytes, 4 data with the final error, 5 small bufio
+	Reader int `json:",omitempty"`
 }
 
 var meshAttrs = []gen.AttrSpec{
@@ -182,15 +186,27 @@ func meshVal() *rapid.Generator[float64] {
 	})
 }
 
+// genReader: two cases in three use a bytes.Reader, the others one of the short-read behaviours.
+func genReader(t *rapid.T) int {
+	if rapid.IntRange(0, 2).Draw(t, "shortReads") != 0 {
+		return 0
+	}
+	return rapid.IntRange(1, rdr.Modes-1).Draw(t, "reader")
+}
+
+func readerOK(mode int) bool { return mode >= 0 && mode < rdr.Modes }
+
 func genMesh(t *rapid.T) MeshCase {
 	if rapid.IntRange(0, 39).Draw(t, "empty") == 0 {
 		return MeshCase{M: gen.MeshDesc{Topo: int(modeling.TriangleTopology), Idx: []int{}}}
 	}
-	return MeshCase{M: gen.Mesh(t, gen.MeshOpts{
+	c := MeshCase{M: gen.Mesh(t, gen.MeshOpts{
 		Topos:   []modeling.Topology{modeling.TriangleTopology},
 		NeedPos: true, DupPos: true, MaxN: 8, MaxPrims: 6,
 		Val: meshVal(), Attrs: meshAttrs,
 	}, "m")}
+	c.Reader = genReader(t)
+	return c
 }
 
 // inDomainMesh checks that a (possibly hand-written) case is inside the quantifier.
@@ -244,9 +260,12 @@ func row64(r [3]gen.F) v3 { return v3{float64(r[0]), float64(r[1]), float64(r[2]
 
 func runMesh(c MeshCase, o *vh.Obs) *vh.Failure {
 	d := c.M
-	if !inDomainMesh(d) {
+	if !inDomainMesh(d) || !readerOK(c.Reader) {
 		o.Class("out-of-domain")
 		return nil
+	}
+	if c.Reader != 0 {
+		o.Class("reader/short-reads")
 	}
 	n := len(d.Idx) / 3
 	pos := d.V3[modeling.PositionAttribute]
@@ -366,7 +385,7 @@ func runMesh(c MeshCase, o *vh.Obs) *vh.Failure {
 	// 3. ReadMesh returns the same triangles in order
 	var back *modeling.Mesh
 	var rerr error
-	if kind, val := oracle.Try(func() { back, rerr = stl.ReadMesh(bytes.NewReader(b)) }); kind != "" {
+	if kind, val := oracle.Try(func() { back, rerr = stl.ReadMesh(rdr.For(c.Reader, b)) }); kind != "" {
 		return vh.Failf("readmesh-panic-"+kind, "ReadMesh panicked on WriteMesh output: %v", val)
 	}
 	if rerr != nil || back == nil {
@@ -400,7 +419,7 @@ func runMesh(c MeshCase, o *vh.Obs) *vh.Failure {
 	// 4. Read / Write is the identity on the bytes (a 0/0 facet normal makes the string leave
 	// the "finite floats" domain of that clause: counted, not judged)
 	if recsFinite(p) {
-		if f := checkReadWrite(b, p); f != nil {
+		if f := checkReadWrite(b, p, c.Reader); f != nil {
 			return f
 		}
 	} else {
@@ -473,10 +492,10 @@ func checkReadMesh(back modeling.Mesh, p parsed, tag string) *vh.Failure {
 }
 
 // checkReadWrite: stl.Read returns exactly the parsed records and stl.Write reproduces the bytes.
-func checkReadWrite(b []byte, p parsed) *vh.Failure {
+func checkReadWrite(b []byte, p parsed, mode int) *vh.Failure {
 	var bin *stl.Binary
 	var err error
-	if kind, val := oracle.Try(func() { bin, err = stl.Read(bytes.NewReader(b)) }); kind != "" {
+	if kind, val := oracle.Try(func() { bin, err = stl.Read(rdr.For(mode, b)) }); kind != "" {
 		return vh.Failf("read-panic-"+kind, "Read panicked on a well-formed byte string: %v", val)
 	}
 	if err != nil || bin == nil {
@@ -573,7 +592,8 @@ func checkRewrite(back modeling.Mesh, p parsed) *vh.Failure {
 // ---------------------------------------------------------------- sub-check 2: raw byte strings
 
 type BytesCase struct {
-	Raw []byte // base64 in replay files
+	Raw    []byte // base64 in replay files
+	Reader int    `json:",omitempty"` // as in MeshCase
 }
 
 func genF32(t *rapid.T, label string) float32 {
@@ -649,14 +669,17 @@ func genBytes(t *rapid.T) BytesCase {
 		}
 		b = binary.LittleEndian.AppendUint16(b, attr)
 	}
-	return BytesCase{Raw: b}
+	return BytesCase{Raw: b, Reader: genReader(t)}
 }
 
 func runBytes(c BytesCase, o *vh.Obs) *vh.Failure {
 	p, err := parseSTL(c.Raw)
-	if err != nil {
+	if err != nil || !readerOK(c.Reader) {
 		o.Class("out-of-domain")
 		return nil
+	}
+	if c.Reader != 0 {
+		o.Class("reader/short-reads")
 	}
 	n := len(p.Recs)
 	withN, attrSet, extreme, degenerate := 0, false, false, false
@@ -715,13 +738,13 @@ func runBytes(c BytesCase, o *vh.Obs) *vh.Failure {
 	}
 
 	// Read returns the records; Write(Read(bytes)) == bytes
-	if f := checkReadWrite(c.Raw, p); f != nil {
+	if f := checkReadWrite(c.Raw, p, c.Reader); f != nil {
 		return f
 	}
 	// ReadMesh returns the same triangles in order
 	var back *modeling.Mesh
 	var rerr error
-	if kind, val := oracle.Try(func() { back, rerr = stl.ReadMesh(bytes.NewReader(c.Raw)) }); kind != "" {
+	if kind, val := oracle.Try(func() { back, rerr = stl.ReadMesh(rdr.For(c.Reader, c.Raw)) }); kind != "" {
 		return vh.Failf("readmesh-panic-"+kind, "ReadMesh panicked on a well-formed byte string: %v", val)
 	}
 	if rerr != nil || back == nil {
@@ -740,18 +763,20 @@ func runBytes(c BytesCase, o *vh.Obs) *vh.Failure {
 // a small linear congruential sequence, at the record counts where a count width, a read buffer
 // or a block size changes (the random cases above have at most six triangles).
 type LargeCase struct {
-	Tris int
-	Seed uint32
-	Mode int // 0 raw bytes without normals, 1 raw bytes with axis normals, 2 mesh with its own vertices per corner, 3 welded grid mesh, 4 welded grid mesh with normals
+	Tris   int
+	Seed   uint32
+	Reader int `json:",omitempty"` // as in MeshCase
+	Mode   int // 0 raw bytes without normals, 1 raw bytes with axis normals, 2 mesh with its own vertices per corner, 3 welded grid mesh, 4 welded grid mesh with normals
 }
 
 var largeCounts = []int{81, 82, 163, 255, 256, 257, 1000, 1310, 1311, 4096, 65535, 65536, 65537, 70000, 131072}
 
 func genLarge(t *rapid.T) LargeCase {
 	return LargeCase{
-		Tris: rapid.SampledFrom(largeCounts).Draw(t, "tris"),
-		Seed: rapid.Uint32().Draw(t, "seed"),
-		Mode: rapid.IntRange(0, 4).Draw(t, "mode"),
+		Tris:   rapid.SampledFrom(largeCounts).Draw(t, "tris"),
+		Seed:   rapid.Uint32().Draw(t, "seed"),
+		Mode:   rapid.IntRange(0, 4).Draw(t, "mode"),
+		Reader: genReader(t),
 	}
 }
 
@@ -763,7 +788,7 @@ func (l *lcg) eighth() float64 { // multiples of 1/8 in [-32, 32]
 }
 
 func runLarge(c LargeCase, o *vh.Obs) *vh.Failure {
-	if c.Tris < 1 || c.Tris > 1<<18 || c.Mode < 0 || c.Mode > 4 {
+	if c.Tris < 1 || c.Tris > 1<<18 || c.Mode < 0 || c.Mode > 4 || !readerOK(c.Reader) {
 		o.Class("out-of-domain")
 		return nil
 	}
@@ -795,7 +820,7 @@ func runLarge(c LargeCase, o *vh.Obs) *vh.Failure {
 			}
 			b = binary.LittleEndian.AppendUint16(b, uint16(i*7))
 		}
-		return runBytes(BytesCase{Raw: b}, &vh.Obs{})
+		return runBytes(BytesCase{Raw: b, Reader: c.Reader}, &vh.Obs{})
 	}
 	d := gen.MeshDesc{Topo: int(modeling.TriangleTopology), V3: map[string][][3]gen.F{}}
 	if c.Mode == 2 {
@@ -827,7 +852,7 @@ func runLarge(c LargeCase, o *vh.Obs) *vh.Failure {
 		}
 		d.V3[modeling.NormalAttribute] = nr
 	}
-	return runMesh(MeshCase{M: d}, &vh.Obs{})
+	return runMesh(MeshCase{M: d, Reader: c.Reader}, &vh.Obs{})
 }
 
 func TestC07(t *testing.T) {
